@@ -780,11 +780,11 @@ func init() {
 		Classes: []fw.Class{
 			{Name: "exhaustive-3", Quick: 4096, Thorough: 4096, Run: c11Exh3, Exhaustive: "all closed rings of 3 vertices on a 4x4 grid x all 16 query points"},
 			{Name: "exhaustive-4", Quick: 65536, Thorough: 65536, Run: c11Exh4, Exhaustive: "all closed rings of 4 vertices on a 4x4 grid x all 16 query points"},
-			{Name: "random-rings", Quick: 60000, Thorough: 1500000, Run: c11Random},
-			{Name: "on-line", Quick: 150000, Thorough: 3000000, Run: c11OnLine},
-			{Name: "hard-edges", Quick: 20000, Thorough: 600000, Run: c11HardEdges},
-			{Name: "one-array-two-layouts", Quick: 20000, Thorough: 400000, Run: c11TwoLayouts},
-			{Name: "huge-rings", Quick: 24, Thorough: 600, Chunk: 2, Run: c11HugeRings},
+			{Name: "random-rings", Quick: 60000, Thorough: 6000000, Run: c11Random},
+			{Name: "on-line", Quick: 150000, Thorough: 12000000, Run: c11OnLine},
+			{Name: "hard-edges", Quick: 20000, Thorough: 2400000, Run: c11HardEdges},
+			{Name: "one-array-two-layouts", Quick: 20000, Thorough: 1600000, Run: c11TwoLayouts},
+			{Name: "huge-rings", Quick: 24, Thorough: 2400, Chunk: 2, Run: c11HugeRings},
 		},
 		Require: []string{"loc_interior", "loc_boundary", "loc_exterior", "on_vertex", "on_edge_interior", "ray_through_vertex", "horizontal_edge_on_ray", "variant_sets", "online_true", "online_false", "online_float_inputs"},
 	})
